@@ -555,6 +555,18 @@ pub fn run() -> i32 {
                 }
             }
         }
+        for case in 0..=5u8 {
+            for a in 0..4u8 {
+                for b in 0..4u8 {
+                    crate::sym::load(vec![vec![case], vec![a], vec![b]]);
+                    n += 1;
+                    if std::panic::catch_unwind(|| crate::node::c14_size_affixes()).is_err() {
+                        c11_bad += 1;
+                        eprintln!("SELFTEST-FAIL: c14_size_affixes: case={} a={} b={}", case, a, b);
+                    }
+                }
+            }
+        }
         for code in 0..=5u8 {
             crate::sym::load(vec![vec![code]]);
             n += 1;
